@@ -203,54 +203,90 @@ structure Acc where
 
 def redactedMarkerStr : Str := [0xC3, 0x97]
 
-/-- one iteration of the composition loop (innermost layer first) -/
-def compStep (module : Str) (a : Acc) (l : Layer) : Acc :=
+/-- `file:line` and function of the innermost call of a reportable stack (its last frame) -/
+def topFile (frames : List RFrame) : Str := (frames.getLast?.map (fun f => lastPathComponent f.filename)).getD []
+def topFn (frames : List RFrame) : Str := (frames.getLast?.map (·.function)).getD []
+def topLine (frames : List RFrame) : Int := (frames.getLast?.map (·.lineno)).getD 0
+
+/-- the Type field of a layer's exception -/
+def excType (frames : List RFrame) : Str :=
+  let ty0 := (if topFile frames ≠ [] then topFile frames ++ b!":" ++ intStr (topLine frames) ++ b!" " else []) ++
+    (if topFn frames ≠ [] then b!"(" ++ topFn frames ++ b!")" else [])
+  if ty0 = [] then b!"<unknown error>" else ty0
+
+def counterStr (n : Nat) : Str := b!"(" ++ natStr n ++ b!")"
+
+/-- the composition line of one layer -/
+def lineOf (a : Acc) (l : Layer) : Str :=
   let short := lastPathComponent l.origType
   match l.stack with
   | some frames =>
-    let top := frames.getLast?
-    let file := (top.map (fun f => lastPathComponent f.filename)).getD []
-    let fn := (top.map (·.function)).getD []
-    let lineno := (top.map (·.lineno)).getD 0
-    let pre := if frames ≠ [] then file ++ b!":" ++ intStr lineno ++ b!": " else []
-    let ty0 := (if file ≠ [] then file ++ b!":" ++ intStr lineno ++ b!" " else []) ++ (if fn ≠ [] then b!"(" ++ fn ++ b!")" else [])
-    let ty1 := if ty0 = [] then b!"<unknown error>" else ty0
-    if a.excs = [] then
-      { a with msg := a.msg ++ a.sep ++ pre ++ short ++ b!" (top exception)", sep := nlS,
-               excs := a.excs ++ [⟨module, ty1, short, some frames⟩] }
-    else
-      let ctr := b!"(" ++ natStr a.extraNum ++ b!")"
-      { a with msg := a.msg ++ a.sep ++ pre ++ short ++ b!" " ++ ctr, sep := nlS, extraNum := a.extraNum + 1,
-               excs := a.excs ++ [⟨module, ctr ++ b!" " ++ ty1, short, some frames⟩] }
+    (if frames ≠ [] then topFile frames ++ b!":" ++ intStr (topLine frames) ++ b!": " else []) ++ short ++
+      (if a.excs = [] then b!" (top exception)" else b!" " ++ counterStr a.extraNum)
   | none =>
     let d := (l.details.head?.map firstLine).getD []
-    if d ≠ [] then
-      { a with msg := a.msg ++ a.sep ++ short ++ b!": " ++ d, sep := nlS,
-               firstDetail := if a.firstDetail = [] then d else a.firstDetail }
-    else { a with msg := a.msg ++ a.sep ++ short, sep := nlS }
+    if d ≠ [] then short ++ b!": " ++ d else short
+
+/-- the exception a layer contributes: one when it carries a stack trace -/
+def excOf (module : Str) (a : Acc) (l : Layer) : List Exc :=
+  match l.stack with
+  | some frames =>
+    [⟨module, (if a.excs = [] then [] else counterStr a.extraNum ++ b!" ") ++ excType frames,
+      lastPathComponent l.origType, some frames⟩]
+  | none => []
+
+/-- one iteration of the composition loop (innermost layer first) -/
+def compStep (module : Str) (a : Acc) (l : Layer) : Acc :=
+  { msg := a.msg ++ (a.sep ++ lineOf a l),
+    sep := nlS,
+    extraNum := if l.stack.isSome && a.excs ≠ [] then a.extraNum + 1 else a.extraNum,
+    excs := a.excs ++ excOf module a l,
+    firstDetail :=
+      if l.stack.isNone && a.firstDetail = [] then (l.details.head?.map firstLine).getD [] else a.firstDetail }
+
+/-- the layers of the report, outermost first -/
+def reportLayers (P : Proc) (vf : Err → Str) (trim : List Str) (e : Err) : List Layer :=
+  (visitAll e).map (layerOf P vf trim)
+
+/-- the source prefix of the message: `file:line: ` of the innermost recorded stack trace -/
+def srcPrefix (P : Proc) (e : Err) : Str :=
+  match oneLineSource P e with
+  | some (f, l) => f ++ b!":" ++ intStr l ++ b!": "
+  | none => []
+
+/-- the redacted verbose rendering: `redact.Sprintf("%+v", err).Redact().StripMarkers()` -/
+def verboseRedacted (e : Err) : Str := stripMarkers (redactS (assemble [.pre (render true true e)]))
+
+def compHeader : Str := nl :: b!"-- report composition:" ++ [nl]
+
+def initAcc (P : Proc) (e : Err) : Acc :=
+  { msg := srcPrefix P e ++ verboseRedacted e ++ compHeader,
+    firstDetail := if verboseRedacted e ≠ redactedMarkerStr then firstLine (verboseRedacted e) else [] }
+
+/-- the composition loop: innermost layer first -/
+def compLoop (P : Proc) (vf : Err → Str) (trim : List Str) (e : Err) : Acc :=
+  (reportLayers P vf trim e).reverse.foldl (compStep (getDomain e)) (initAcc P e)
+
+def finalMsg (a : Acc) : Str :=
+  if a.extraNum > 1 then a.msg ++ nl :: b!"(check the extra data payloads)" else a.msg
+
+/-- the exceptions: Sentry's order (reversed); a synthetic one when no layer has a stack;
+    otherwise the first collected one is decorated with the leaf type and the first detail line -/
+def finalExcs (module leafType : Str) (a : Acc) : List Exc :=
+  match a.excs with
+  | [] => [⟨module, leafType, a.firstDetail, none⟩]
+  | first :: rest =>
+    let wrapped := first.value ≠ leafType
+    let v := leafType ++ (if a.firstDetail ≠ [] then b!": " ++ a.firstDetail else []) ++
+      (if wrapped then nl :: b!"via " ++ first.value else [])
+    ({ first with value := v } :: rest).reverse
+
+def leafTypeOf (ls : List Layer) : Str := (ls.getLast?.map (fun l => lastPathComponent l.origType)).getD []
 
 /-- report.BuildSentryReport for a non-nil error -/
 def buildReport (P : Proc) (vf : Err → Str) (trim : List Str) (e : Err) : Report :=
-  let layers := (visitAll e).map (layerOf P vf trim)
-  let module := getDomain e
-  let src : Str := match oneLineSource P e with
-    | some (f, l) => f ++ b!":" ++ intStr l ++ b!": "
-    | none => []
-  let verbose := stripMarkers (redactS (assemble [.pre (render true true e)]))
-  let fdl := if verbose ≠ redactedMarkerStr then firstLine verbose else []
-  let a0 : Acc := { msg := src ++ verbose ++ nl :: b!"-- report composition:" ++ [nl], firstDetail := fdl }
-  let a := layers.reverse.foldl (compStep module) a0
-  let msg := if a.extraNum > 1 then a.msg ++ nl :: b!"(check the extra data payloads)" else a.msg
-  let types := (layers.reverse.flatMap typesLine)
-  let leafType := (layers.getLast?.map (fun l => lastPathComponent l.origType)).getD []
-  let excs :=
-    match a.excs with
-    | [] => [⟨module, leafType, a.firstDetail, none⟩]
-    | first :: rest =>
-      let wrapped := first.value ≠ leafType
-      let v := leafType ++ (if a.firstDetail ≠ [] then b!": " ++ a.firstDetail else []) ++
-        (if wrapped then nl :: b!"via " ++ first.value else [])
-      ({ first with value := v } :: rest).reverse
-  ⟨msg, excs, types⟩
+  ⟨finalMsg (compLoop P vf trim e),
+   finalExcs (getDomain e) (leafTypeOf (reportLayers P vf trim e)) (compLoop P vf trim e),
+   (reportLayers P vf trim e).reverse.flatMap typesLine⟩
 
 end ErrModel
